@@ -235,6 +235,22 @@ def analyze_path(c):
     c.replay("code", code=REPLAY)
 
 
+# the two callee contracts assumed above are verified on the real methods
+
+@contract(f"{SA}:_StaticScope.__contains__", prop="C19", name="_StaticScope.__contains__[a name is in scope iff some open scope binds it]")
+def static_scope_contains(c):
+    s0, s1, s2 = c.dict("template_scope"), c.dict("block_scope_1"), c.dict("block_scope_2")
+    self = c.obj(f"{SA}:_StaticScope", "scope", stack=c.st.alloc(HList(items=[s0, s1, s2])))
+    k = c.str("name")
+    kb = U.str(k.t)
+    hs = [c.st.deref(x).copy() for x in (s0, s1, s2)]
+    c.call(k, self_val=self)
+    c.ensures("membership-in-any-open-scope", lambda r: r.truth() == z3.Or(*[z3.Select(h.present, kb) for h in hs]))
+    c.raises()
+    c.assume_note("BOUNDED in the number of open scopes only: a stack of 3 arbitrary name sets")
+    c.replay("code", code=REPLAY)
+
+
 def _analyze_children(opens_scope):
     @contract(f"{SA}:_analyze_variables", prop="C19", name=f"_analyze_variables[children, expression {'opens a scope' if opens_scope else 'opens no scope'}]")
     def ac(c):
